@@ -23,11 +23,14 @@ theorem subset_addSuppr (same : S → S → Bool) (l : List S) (s : S) : ∀ t, 
 /-! ### fields a step does not touch -/
 
 @[simp] theorem updState_supprs (cfg : Cfg S) (x m b d) (st : State S) : (updState cfg x m b d st).supprs = st.supprs := by
-  unfold updState; repeat' split <;> rfl
+  unfold updState; dsimp only; repeat' split
+  all_goals rfl
 @[simp] theorem updState_locMacros (cfg : Cfg S) (x m b d) (st : State S) : (updState cfg x m b d st).locMacros = st.locMacros := by
-  unfold updState; repeat' split <;> rfl
+  unfold updState; dsimp only; repeat' split
+  all_goals rfl
 @[simp] theorem updState_remarks (cfg : Cfg S) (x m b d) (st : State S) : (updState cfg x m b d st).remarks = st.remarks := by
-  unfold updState; repeat' split <;> rfl
+  unfold updState; dsimp only; repeat' split
+  all_goals rfl
 
 theorem reportErr_supprs (cfg : Cfg S) (st : State S) (o x) : (reportErr cfg st o x).1.supprs = st.supprs := by
   unfold reportErr; split <;> simp
@@ -146,9 +149,6 @@ theorem updState_exit_congr (cfg : Cfg S) (x m b d) (c a : State S) (h : c.exitC
   repeat' split
   all_goals simp_all
 
-theorem contains_cons (t y : Str) (l : List Str) : (t :: l).contains y = (y == t || l.contains y) := by
-  simp [List.contains_cons]
-
 theorem updState_lists_congr (cfg : Cfg S) (x m b d) (c a : State S) (y : Str)
     (h : c.errorList.contains y = a.errorList.contains y ∧ c.suppressedList.contains y = a.suppressedList.contains y) :
     (updState cfg x m b d c).errorList.contains y = (updState cfg x m b d a).errorList.contains y ∧
@@ -156,7 +156,7 @@ theorem updState_lists_congr (cfg : Cfg S) (x m b d) (c a : State S) (y : Str)
   obtain ⟨h1, h2⟩ := h
   unfold updState
   repeat' split
-  all_goals simp_all [List.contains_cons]
+  all_goals simp_all
 
 /-- one step keeps the outputs equal and the invariant for the rest of the events -/
 theorem step_sim (cfg : Cfg S) (F : List S) (e : Ev S) (t : List (Ev S)) (c a : State S) (o : Out)
@@ -230,7 +230,11 @@ theorem step_sim (cfg : Cfg S) (F : List S) (e : Ev S) (t : List (Ev S)) (c a : 
       · intro y hy; rw [e3, e4]; exact h.mac y (by simp [preMacroReports, hy])
       · intro y hy; rw [e5, e6]; exact h.rem y (by simp [preRemarkReports, hy])
     by_cases hi : x.internal = true
-    · simp only [stepEv, reportErr, hi, if_true]
+    · have e1 : stepEv cfg c o (.report x) = (c, { o with forwarded := o.forwarded ++ [x] }) := by
+        simp [stepEv, reportErr, hi]
+      have e2 : stepEv cfg a o (.report x) = (a, { o with forwarded := o.forwarded ++ [x] }) := by
+        simp [stepEv, reportErr, hi]
+      rw [e1, e2]
       exact ⟨rfl, tailInv c a rfl rfl rfl rfl rfl rfl
         (fun he y hy => h.dup he y (by simp [reportsOf, hy])) h.ex⟩
     · have hi' : x.internal = false := by simpa using hi
@@ -268,7 +272,9 @@ theorem step_sim (cfg : Cfg S) (F : List S) (e : Ev S) (t : List (Ev S)) (c a : 
         rw [hsup]
         cases he : cfg.emitDuplicates
         · obtain ⟨d1, d2⟩ := hdupx he
-          split <;> simp [d1, d2]
+          cases hA : a.supprs.any (fun s => cfg.hits s x (lookupMacros a.locMacros x))
+          · simpa using d1
+          · simpa using d2
         · simp
       simp only [stepEv, reportErr, hi', Bool.false_eq_true, if_false]
       rw [hdh, hsup, hm, hr]
@@ -324,7 +330,7 @@ theorem dedupBy_seen_congr (key : Finding → Str) (l : List Finding) : ∀ (s1 
     · congr 1
       apply ih
       intro k
-      simp [List.contains_cons, h k]
+      rw [List.contains_cons, List.contains_cons, h k]
 
 /-- every key of the output is new and the output has no repeated key -/
 theorem dedupBy_keys (key : Finding → Str) (l : List Finding) : ∀ (seen : List Str),
@@ -351,7 +357,7 @@ theorem dedupBy_keys (key : Finding → Str) (l : List Finding) : ∀ (seen : Li
         intro hm
         obtain ⟨y, hy, hk⟩ := List.mem_map.1 hm
         have := h1 y hy
-        simp [List.contains_cons, hk] at this
+        simp [hk] at this
 
 /-- a list without repeated keys, none of them seen, passes unchanged -/
 theorem dedupBy_id (key : Finding → Str) (l : List Finding) : ∀ (seen : List Str),
@@ -379,5 +385,71 @@ theorem dedupBy_dedupBy_prefix (key : Finding → Str) (l1 l2 : List Finding) (s
   rw [dedupBy_append, dedupBy_append]
   obtain ⟨h1, h2⟩ := dedupBy_keys key l1 seen
   rw [dedupBy_id key _ seen h1 h2]
+
+theorem dedupBy_subset (key : Finding → Str) (l : List Finding) : ∀ (seen : List Str) x, x ∈ dedupBy key seen l → x ∈ l := by
+  induction l with
+  | nil => intro _ _ h; simp [dedupBy] at h
+  | cons y t ih =>
+    intro seen x h
+    simp only [dedupBy] at h
+    split at h
+    · exact List.mem_cons_of_mem _ (ih _ _ h)
+    · rcases List.mem_cons.1 h with rfl | h
+      · simp
+      · exact List.mem_cons_of_mem _ (ih _ _ h)
+
+/-- a stream filtered with fewer remembered keys, filtered again: the first filter is invisible -/
+theorem dedupBy_dedupBy (key : Finding → Str) (l : List Finding) : ∀ (s0 seen : List Str),
+    (∀ k, s0.contains k = true → seen.contains k = true) → dedupBy key seen (dedupBy key s0 l) = dedupBy key seen l := by
+  induction l with
+  | nil => intro _ _ _; rfl
+  | cons x t ih =>
+    intro s0 seen hsub
+    by_cases h0 : s0.contains (key x) = true
+    · have h1 := hsub _ h0
+      simp only [dedupBy, h0, h1, if_true]
+      exact ih s0 seen hsub
+    · simp only [dedupBy, h0, if_false, Bool.false_eq_true]
+      have hsub' : ∀ s : List Str, (∀ k, s0.contains k = true → s.contains k = true) → s.contains (key x) = true →
+          ∀ k, (key x :: s0).contains k = true → s.contains k = true := by
+        intro s hs hx k hk
+        rw [List.contains_cons] at hk
+        rcases Bool.or_eq_true _ _ ▸ hk with hk | hk
+        · have : k = key x := by simpa using hk
+          rw [this]; exact hx
+        · exact hs k hk
+      by_cases h1 : seen.contains (key x) = true
+      · simp only [h1, if_true]
+        exact ih _ _ (hsub' seen hsub h1)
+      · simp only [h1, if_false, Bool.false_eq_true]
+        congr 1
+        apply ih
+        apply hsub' (key x :: seen)
+        · intro k hk; rw [List.contains_cons, hsub k hk, Bool.or_true]
+        · simp
+
+/-- filtering the concatenation of separately filtered streams = filtering the concatenation -/
+theorem dedupBy_flatten (key : Finding → Str) (ls : List (List Finding)) : ∀ (seen : List Str),
+    dedupBy key seen (ls.map (dedupBy key [])).flatten = dedupBy key seen ls.flatten := by
+  induction ls with
+  | nil => intro _; rfl
+  | cons l rest ih =>
+    intro seen
+    simp only [List.map_cons, List.flatten_cons]
+    rw [dedupBy_append, dedupBy_append, dedupBy_dedupBy key l [] seen (by intro k hk; simp at hk), ih]
+
+theorem runFrom_append {α : Type} (cfg : Cfg S) (analyze : α → Trace S) (l1 : List α) : ∀ (st : State S) (l2 : List α),
+    runFrom cfg analyze st (l1 ++ l2) =
+      ((runFrom cfg analyze (runFrom cfg analyze st l1).1 l2).1,
+       (runFrom cfg analyze st l1).2 ++ (runFrom cfg analyze (runFrom cfg analyze st l1).1 l2).2) := by
+  induction l1 with
+  | nil => intro st l2; simp [runFrom]
+  | cons f rest ih => intro st l2; simp [runFrom, ih]
+
+theorem runFrom_length {α : Type} (cfg : Cfg S) (analyze : α → Trace S) (l : List α) : ∀ (st : State S),
+    (runFrom cfg analyze st l).2.length = l.length := by
+  induction l with
+  | nil => intro _; rfl
+  | cons f rest ih => intro st; simp [runFrom, ih]
 
 end Cppcheck.RunState
